@@ -1,6 +1,16 @@
 import Pfst.Scan
 
-/-! # `find_contains_loc` / `find_in_loc` / `find_loc` return what a brute-force scan would return -/
+/-! # `find_contains_loc` / `find_in_loc` / `find_loc` return what a brute-force scan would return
+
+Model: the last section of `Pfst/Scan.lean` (the repaired functions: `allow_exact='top'` honoured inside the descent,
+decorators searched before giving up at a definition that does not contain the location).
+
+* `findIn_bruteforce`, `findContains_bruteforce(T)`, `findLoc_bruteforce`: on plainly well-formed lists (`wfList`) the
+  passes return the brute-force selections, for all three `allow_exact` modes; `findContainsD_eq_of_wf`: the decorator
+  search is inert there.
+* `findContainsD_bruteforce(T)`, `findLoc_decorated_partial`: on lists WITH decorated definitions (`wfListD`) and
+  non-empty rectangles the repaired `find_contains_loc` returns the brute-force selection over all nodes.
+* `bruteContains_deepest`, `bruteContains_top_highest`: what the brute-force selections mean geometrically. -/
 
 namespace Pfst.Scan
 
@@ -155,6 +165,7 @@ theorem findIn_bruteforce (nodes : List FNode) (q : Loc) (hwf : wfList nodes = t
     · simp
 
 
+
 /-! ## `find_contains_loc` -/
 
 /-- brute force with position: the LAST entry satisfying `p` among the leading entries of depth `> d`, together
@@ -167,6 +178,21 @@ def lastCandT (p : FNode → Bool) (d : Nat) : List FNode → Option (FNode × L
       | some r => some r
       | none => if p f then some (f, rest) else none
 
+/-- brute force with position for all three `allow_exact` modes: among the leading entries of depth `> d` the FIRST
+entry satisfying `p` and `e` when there is one, otherwise the LAST entry satisfying `p`; together with the list that
+follows it.  (`p` = candidate, `e` = "exact match and `allow_exact == 'top'`".) -/
+def pickT (p e : FNode → Bool) (d : Nat) : List FNode → Option (FNode × List FNode)
+  | [] => none
+  | f :: rest =>
+    if f.depth ≤ d then none
+    else if p f && e f then some (f, rest)
+    else match pickT p e d rest with
+      | some r => some r
+      | none => if p f then some (f, rest) else none
+
+/-- the early-exit predicate of `allow_exact='top'` -/
+def topE (q : Loc) (ae : AllowExact) (f : FNode) : Bool := exactQ f q && ae == .top
+
 /-- positional variant of `bruteContains`: the node selected and the list that follows it -/
 def bruteContainsT (nodes : List FNode) (q : Loc) (ae : AllowExact) : Option (FNode × List FNode) :=
   match nodes with
@@ -176,7 +202,7 @@ def bruteContainsT (nodes : List FNode) (q : Loc) (ae : AllowExact) : Option (FN
       if exactQ self q && ae == .no then none
       else if exactQ self q && ae == .top then some (self, tail)
       else
-        match lastCandT (candContains q (ae != .no)) self.depth tail with
+        match pickT (candContains q (ae != .no)) (topE q ae) self.depth tail with
         | some r => some r
         | none => some (self, tail)
     else none
@@ -188,6 +214,24 @@ theorem lastCandT_cons (p : FNode → Bool) (d : Nat) (f : FNode) (rest : List F
         | some r => some r
         | none => if p f then some (f, rest) else none := by
   rw [lastCandT]
+
+theorem pickT_cons (p e : FNode → Bool) (d : Nat) (f : FNode) (rest : List FNode) :
+    pickT p e d (f :: rest) =
+      if f.depth ≤ d then none
+      else if p f && e f then some (f, rest)
+      else match pickT p e d rest with
+        | some r => some r
+        | none => if p f then some (f, rest) else none := by
+  rw [pickT]
+
+/-- without an early exit `pickT` is `lastCandT` -/
+theorem pickT_false (p : FNode → Bool) (d : Nat) (l : List FNode) :
+    pickT p (fun _ => false) d l = lastCandT p d l := by
+  induction l with
+  | nil => rfl
+  | cons f rest ih =>
+    rw [pickT_cons, lastCandT_cons, ih]
+    simp
 
 theorem lastCandT_map_fst (p : FNode → Bool) (d : Nat) (l : List FNode) :
     (lastCandT p d l).map (·.1) = ((l.takeWhile (deeper d)).filter p).getLast? := by
@@ -208,6 +252,35 @@ theorem lastCandT_map_fst (p : FNode → Bool) (d : Nat) (l : List FNode) :
         rw [← ih]
         cases lastCandT p d rest <;> rfl
 
+/-- what `pickT` selects: the first `p`-and-`e` entry, else the last `p` entry -/
+theorem pickT_map_fst (p e : FNode → Bool) (d : Nat) (l : List FNode) :
+    (pickT p e d l).map (·.1) =
+      match ((l.takeWhile (deeper d)).filter p).find? e with
+      | some f => some f
+      | none => ((l.takeWhile (deeper d)).filter p).getLast? := by
+  induction l with
+  | nil => simp [pickT]
+  | cons f rest ih =>
+    rw [pickT_cons]
+    by_cases hd : f.depth ≤ d
+    · have : ¬ f.depth > d := by omega
+      simp [hd, List.takeWhile_cons, this]
+    · have hd' : f.depth > d := by omega
+      simp only [hd, if_false, List.takeWhile_cons, deeper_apply, hd', decide_true, if_true, List.filter_cons]
+      revert ih
+      generalize pickT p e d rest = a
+      generalize List.filter p (List.takeWhile (deeper d) rest) = c
+      intro ih
+      cases hp : p f
+      · simp only [Bool.false_and, Bool.false_eq_true, if_false]
+        rw [← ih]
+        cases a <;> rfl
+      · cases he : e f
+        · simp only [Bool.and_false, Bool.false_eq_true, if_false, if_true, List.find?_cons, he,
+            List.getLast?_cons]
+          cases a <;> cases hb : List.find? e c <;> cases hc : c.getLast? <;> simp_all
+        · simp [List.find?_cons, he]
+
 theorem bruteContainsT_map_fst (nodes : List FNode) (q : Loc) (ae : AllowExact) :
     (bruteContainsT nodes q ae).map (·.1) = bruteContains nodes q ae := by
   cases nodes with
@@ -219,11 +292,27 @@ theorem bruteContainsT_map_fst (nodes : List FNode) (q : Loc) (ae : AllowExact) 
       · rfl
       · split
         · rfl
-        · have h := lastCandT_map_fst (candContains q (ae != .no)) self.depth tail
-          change _ = (List.filter (candContains q (ae != .no))
-            (List.takeWhile (fun f => decide (f.depth > self.depth)) tail)).getLast? at h
-          rw [← h]
-          cases lastCandT (candContains q (ae != .no)) self.depth tail <;> rfl
+        · have h := pickT_map_fst (candContains q (ae != .no)) (topE q ae) self.depth tail
+          change _ = (match (List.filter (candContains q (ae != .no))
+              (List.takeWhile (fun f => decide (f.depth > self.depth)) tail)).find? (topE q ae) with
+            | some f => some f
+            | none => (List.filter (candContains q (ae != AllowExact.no))
+              (List.takeWhile (fun f => decide (f.depth > self.depth)) tail)).getLast?) at h
+          revert h
+          generalize pickT (candContains q (ae != .no)) (topE q ae) self.depth tail = a
+          generalize List.filter (candContains q (ae != .no))
+              (List.takeWhile (fun f => decide (f.depth > self.depth)) tail) = c
+          intro h
+          have hfind : (if ae == .top then c.find? (fun f => exactQ f q) else none) = c.find? (topE q ae) := by
+            cases ae
+            · have : topE q .no = fun _ => false := by funext f; simp [topE]
+              rw [this]; exact (List.find?_eq_none.mpr (by simp)).symm
+            · have : topE q .yes = fun _ => false := by funext f; simp [topE]
+              rw [this]; exact (List.find?_eq_none.mpr (by simp)).symm
+            · have : topE q .top = fun f => exactQ f q := by funext f; simp [topE]
+              rw [this]; simp
+          rw [hfind]
+          cases a <;> cases hb : List.find? (topE q ae) c <;> cases hc : c.getLast? <;> simp_all
     · rfl
 
 theorem lastCandT_none_of_all (p : FNode → Bool) (d : Nat) (l : List FNode) (h : ∀ g ∈ l, p g = false) :
@@ -232,6 +321,16 @@ theorem lastCandT_none_of_all (p : FNode → Bool) (d : Nat) (l : List FNode) (h
   | nil => rfl
   | cons f rest ih =>
     unfold lastCandT
+    have h1 := ih (fun g hg => h g (List.mem_cons_of_mem _ hg))
+    have h2 := h f (List.mem_cons_self)
+    simp [h1, h2]
+
+theorem pickT_none_of_all (p e : FNode → Bool) (d : Nat) (l : List FNode) (h : ∀ g ∈ l, p g = false) :
+    pickT p e d l = none := by
+  induction l with
+  | nil => rfl
+  | cons f rest ih =>
+    rw [pickT_cons]
     have h1 := ih (fun g hg => h g (List.mem_cons_of_mem _ hg))
     have h2 := h f (List.mem_cons_self)
     simp [h1, h2]
@@ -254,6 +353,48 @@ theorem lastCandT_depth (p : FNode → Bool) (d d' : Nat) (hd : d ≤ d') (l : L
         simp [List.dropWhile_cons, h']
       rw [this] at h
       rw [lastCandT_none_of_all p d _ h, lastCandT_none_of_all p d' _ h]
+
+/-- if nothing after the leading run of depth `> d'` is a candidate the selection below depth `d ≤ d'` is the one
+below `d'` -/
+theorem pickT_depth (p e : FNode → Bool) (d d' : Nat) (hd : d ≤ d') (l : List FNode)
+    (h : ∀ g ∈ l.dropWhile (deeper d'), p g = false) : pickT p e d l = pickT p e d' l := by
+  induction l with
+  | nil => rfl
+  | cons f rest ih =>
+    by_cases h' : f.depth > d'
+    · have h1 : ¬ f.depth ≤ d' := by omega
+      have h2 : ¬ f.depth ≤ d := by omega
+      have : List.dropWhile (deeper d') (f :: rest) = List.dropWhile (deeper d') rest := by
+        simp [List.dropWhile_cons, h']
+      rw [this] at h
+      rw [pickT_cons, pickT_cons]
+      simp only [h1, h2, if_false]
+      rw [ih h]
+    · have : List.dropWhile (deeper d') (f :: rest) = f :: rest := by
+        simp [List.dropWhile_cons, h']
+      rw [this] at h
+      rw [pickT_none_of_all p e d _ h, pickT_none_of_all p e d' _ h]
+
+/-- if nothing in the leading run of depth `> d'` is a candidate the selection skips that run -/
+theorem pickT_skip (p e : FNode → Bool) (d d' : Nat) (hd : d ≤ d') (l : List FNode)
+    (h : ∀ g ∈ l.takeWhile (deeper d'), p g = false) : pickT p e d l = pickT p e d (l.dropWhile (deeper d')) := by
+  induction l with
+  | nil => rfl
+  | cons f rest ih =>
+    by_cases h' : f.depth > d'
+    · have h2 : ¬ f.depth ≤ d := by omega
+      have e1 : List.takeWhile (deeper d') (f :: rest) = f :: List.takeWhile (deeper d') rest := by
+        simp [List.takeWhile_cons, h']
+      have e2 : List.dropWhile (deeper d') (f :: rest) = List.dropWhile (deeper d') rest := by
+        simp [List.dropWhile_cons, h']
+      rw [e1] at h
+      rw [e2, pickT_cons, ih (fun g hg => h g (List.mem_cons_of_mem _ hg))]
+      have hp := h f List.mem_cons_self
+      simp only [h2, if_false, hp, Bool.false_and, Bool.false_eq_true]
+      cases pickT p e d (List.dropWhile (deeper d') rest) <;> rfl
+    · have : List.dropWhile (deeper d') (f :: rest) = f :: rest := by
+        simp [List.dropWhile_cons, h']
+      rw [this]
 
 /-- everything after an entry that does not end before `q` and either does not contain `q` or (when exact matches
 are not allowed) is exactly `q`, is no candidate -/
@@ -278,49 +419,117 @@ theorem no_cand_after_subtree (q : Loc) (ax : Bool) (f : FNode) (rest : List FNo
   have h1 := wfAt_after f rest hf g hg
   geo
 
-theorem containsGo_eq (q : Loc) (ax : Bool) (rest : List FNode) (hwf : wfList rest = true) (cur : FNode)
-    (ctail : List FNode) :
-    containsGo q ax cur ctail rest = (lastCandT (candContains q ax) cur.depth rest).getD (cur, ctail) := by
-  induction rest generalizing cur ctail with
-  | nil => simp [containsGo, lastCandT]
+/-- `wfAt` for the entries of the leading run of depth `> d` (all that a pass below a node of depth `d` looks at) -/
+def wfSub (d : Nat) : List FNode → Bool
+  | [] => true
+  | f :: rest => decide (f.depth ≤ d) || (wfAt f rest && wfSub d rest)
+
+theorem wfSub_cons (d : Nat) (f : FNode) (rest : List FNode) (hd : ¬ f.depth ≤ d) :
+    wfSub d (f :: rest) = true ↔ wfAt f rest = true ∧ wfSub d rest = true := by
+  simp [wfSub, hd]
+
+theorem wfSub_of_wfList (d : Nat) (l : List FNode) (h : wfList l = true) : wfSub d l = true := by
+  induction l with
+  | nil => rfl
   | cons f rest ih =>
-    rw [wfList_cons] at hwf
-    obtain ⟨hf, hrest⟩ := hwf
+    rw [wfList_cons] at h
+    simp [wfSub, h.1, ih h.2]
+
+theorem wfSub_mono (d d' : Nat) (hd : d ≤ d') (l : List FNode) (h : wfSub d l = true) : wfSub d' l = true := by
+  induction l with
+  | nil => rfl
+  | cons f rest ih =>
+    by_cases h' : f.depth ≤ d'
+    · simp [wfSub, h']
+    · have h2 : ¬ f.depth ≤ d := by omega
+      rw [wfSub_cons _ _ _ h2] at h
+      rw [wfSub_cons _ _ _ h']
+      exact ⟨h.1, ih h.2⟩
+
+/-- the descent loop returns the `pickT` selection; only the well-formedness of the entries below `cur` is used -/
+theorem containsGo_eq_sub (q : Loc) (ae : AllowExact) (rest : List FNode) (cur : FNode) (ctail : List FNode)
+    (hwf : wfSub cur.depth rest = true) :
+    containsGo q ae cur ctail rest
+      = (pickT (candContains q (ae != .no)) (topE q ae) cur.depth rest).getD (cur, ctail) := by
+  induction rest generalizing cur ctail with
+  | nil => simp [containsGo, pickT]
+  | cons f rest ih =>
     unfold containsGo
     by_cases hd : f.depth ≤ cur.depth
-    · simp [hd, lastCandT]
-    · simp only [hd, if_false]
+    · simp [hd, pickT]
+    · rw [wfSub_cons _ _ _ hd] at hwf
+      obtain ⟨hf, hrest⟩ := hwf
+      simp only [hd, if_false]
       cases heb : endsBeforeQ f q
       · simp only [Bool.false_eq_true, if_false]
         cases hnc : notContainsQ f q
         · simp only [Bool.false_eq_true, if_false]
-          cases hex : (!ax && exactQ f q)
-          · simp only [Bool.false_eq_true, if_false]
-            have hc : candContains q ax f = true := by
-              simp only [candContains, heb, hnc, Bool.not_false, Bool.true_and]
-              cases ax <;> simp_all
-            rw [ih hrest f rest, lastCandT_cons]
-            simp only [hd, if_false, hc, if_true]
-            rw [lastCandT_depth _ cur.depth f.depth (by omega) rest (no_cand_after_subtree q ax f rest hf heb)]
-            cases lastCandT (candContains q ax) f.depth rest <;> rfl
-          · simp only [if_true]
-            have hc : candContains q ax f = false := by
-              simp only [candContains, heb, hnc, Bool.not_false, Bool.true_and]
-              cases ax <;> simp_all
-            have hall := no_cand_after q ax f rest hf heb
-              (Or.inr (by cases ax <;> simp_all))
-            rw [lastCandT_cons]
-            simp [hd, hc, lastCandT_none_of_all _ _ _ hall]
+          -- the descent step
+          have hdesc : candContains q (ae != .no) f = true → topE q ae f = false →
+              containsGo q ae f rest rest
+                = (pickT (candContains q (ae != .no)) (topE q ae) cur.depth (f :: rest)).getD (cur, ctail) := by
+            intro hc he
+            rw [ih f rest (wfSub_mono _ _ (by omega) _ hrest), pickT_cons]
+            simp only [hd, if_false, hc, he, Bool.and_false, Bool.false_eq_true, if_true]
+            rw [pickT_depth _ _ cur.depth f.depth (by omega) rest (no_cand_after_subtree q _ f rest hf heb)]
+            cases pickT (candContains q (ae != .no)) (topE q ae) f.depth rest <;> rfl
+          cases hex : exactQ f q
+          · simp only [Bool.false_and, Bool.false_eq_true, if_false]
+            exact hdesc (by simp [candContains, heb, hnc, hex]) (by simp [topE, hex])
+          · cases ae
+            · -- `allow_exact=False`: stop at the parent
+              simp only [Bool.true_and, beq_self_eq_true, if_true]
+              have hc : candContains q (AllowExact.no != AllowExact.no) f = false := by
+                simp [candContains, hex]
+              have hall := no_cand_after q (AllowExact.no != AllowExact.no) f rest hf heb (Or.inr ⟨by simp, hex⟩)
+              have hb : (AllowExact.no != AllowExact.no) = false := by decide
+              rw [pickT_cons]
+              simp only [hb] at hc hall ⊢
+              simp [hd, hc, pickT_none_of_all _ _ _ _ hall]
+            · -- `allow_exact=True`: descend
+              have h1 : (AllowExact.yes == AllowExact.no) = false := by decide
+              have h2 : (AllowExact.yes == AllowExact.top) = false := by decide
+              simp only [Bool.true_and, h1, h2, Bool.false_eq_true, if_false]
+              exact hdesc (by simp [candContains, heb, hnc, h1]) (by simp [topE, h2])
+            · -- `allow_exact='top'`: stop at the match
+              have h1 : (AllowExact.top == AllowExact.no) = false := by decide
+              simp only [Bool.true_and, h1, Bool.false_eq_true, if_false, beq_self_eq_true, if_true]
+              have hc : candContains q (AllowExact.top != AllowExact.no) f = true := by
+                simp [candContains, heb, hnc, h1]
+              have he : topE q .top f = true := by simp [topE, hex]
+              rw [pickT_cons]
+              simp [hd, hc, he]
         · simp only [if_true]
-          have hc : candContains q ax f = false := by simp [candContains, hnc]
-          have hall := no_cand_after q ax f rest hf heb (Or.inl hnc)
-          rw [lastCandT_cons]
-          simp [hd, hc, lastCandT_none_of_all _ _ _ hall]
+          have hc : candContains q (ae != .no) f = false := by simp [candContains, hnc]
+          have hall := no_cand_after q (ae != .no) f rest hf heb (Or.inl hnc)
+          rw [pickT_cons]
+          simp [hd, hc, pickT_none_of_all _ _ _ _ hall]
       · simp only [if_true]
-        have hc : candContains q ax f = false := by simp [candContains, heb]
-        rw [ih hrest cur ctail, lastCandT_cons]
-        simp only [hd, if_false, hc]
-        cases lastCandT (candContains q ax) cur.depth rest <;> rfl
+        have hc : candContains q (ae != .no) f = false := by simp [candContains, heb]
+        rw [ih cur ctail hrest, pickT_cons]
+        simp only [hd, if_false, hc, Bool.false_and, Bool.false_eq_true]
+        cases pickT (candContains q (ae != .no)) (topE q ae) cur.depth rest <;> rfl
+
+theorem containsGo_eq (q : Loc) (ae : AllowExact) (rest : List FNode) (hwf : wfList rest = true) (cur : FNode)
+    (ctail : List FNode) :
+    containsGo q ae cur ctail rest
+      = (pickT (candContains q (ae != .no)) (topE q ae) cur.depth rest).getD (cur, ctail) :=
+  containsGo_eq_sub q ae rest cur ctail (wfSub_of_wfList _ _ hwf)
+
+/-- `find_contains_loc` (no decorated definitions below the start node) returns the brute-force selection, with the
+list that follows it; only the well-formedness of the entries below the start node is used -/
+theorem findContains_bruteforceT_sub (self : FNode) (tail : List FNode) (q : Loc) (ae : AllowExact)
+    (hwf : wfSub self.depth tail = true) :
+    findContains (self :: tail) q ae = bruteContainsT (self :: tail) q ae := by
+  simp only [findContains, bruteContainsT]
+  split
+  · split
+    · rfl
+    · split
+      · rfl
+      · rw [containsGo_eq_sub q _ tail self tail hwf]
+        cases pickT (candContains q (ae != .no)) (topE q ae) self.depth tail <;> rfl
+  · rfl
 
 /-- `find_contains_loc` returns the brute-force selection, with the list that follows it -/
 theorem findContains_bruteforceT (nodes : List FNode) (q : Loc) (ae : AllowExact) (hwf : wfList nodes = true) :
@@ -329,20 +538,11 @@ theorem findContains_bruteforceT (nodes : List FNode) (q : Loc) (ae : AllowExact
   | nil => rfl
   | cons self tail =>
     rw [wfList_cons] at hwf
-    simp only [findContains, bruteContainsT]
-    split
-    · split
-      · rfl
-      · split
-        · rfl
-        · rw [containsGo_eq q _ tail hwf.2]
-          cases lastCandT (candContains q (ae != .no)) self.depth tail <;> rfl
-    · rfl
+    exact findContains_bruteforceT_sub self tail q ae (wfSub_of_wfList _ _ hwf.2)
 
 theorem findContains_bruteforce (nodes : List FNode) (q : Loc) (ae : AllowExact) (hwf : wfList nodes = true) :
     (findContains nodes q ae).map (·.1) = bruteContains nodes q ae := by
   rw [findContains_bruteforceT nodes q ae hwf, bruteContainsT_map_fst]
-
 
 /-! ## the candidates form a chain: "last candidate" = "deepest candidate" -/
 
@@ -441,6 +641,136 @@ theorem bruteContains_deepest (nodes : List FNode) (q : Loc) (ax : Bool) (r : FN
     exact ⟨Nat.le_refl _, fun _ => rfl⟩
 
 
+/-- `allow_exact='top'`: the brute-force choice "first exact candidate of the subtree" is the HIGHEST of the nodes of
+the subtree that share the location -/
+theorem bruteContains_top_highest (nodes : List FNode) (q : Loc) (r : FNode) (hwf : wfList nodes = true)
+    (hfirst : (((subtree nodes).drop 1).filter (candContains q true)).find? (fun f => exactQ f q) = some r) :
+    exactQ r q = true ∧ candContains q true r = true ∧ r ∈ (subtree nodes).drop 1 ∧
+    ∀ c ∈ (subtree nodes).drop 1, candContains q true c = true → exactQ c q = true →
+      r.depth ≤ c.depth ∧ (c.depth = r.depth → c = r) := by
+  have hsub : ((subtree nodes).drop 1).Sublist nodes := by
+    cases nodes with
+    | nil => simp [subtree]
+    | cons self tail =>
+      simp only [subtree, List.drop_succ_cons, List.drop_zero]
+      exact (List.takeWhile_sublist _).trans (List.sublist_cons_self _ _)
+  have hp := List.Pairwise.sublist (hsub.filter (candContains q true)) (cand_pairwise q true nodes hwf)
+  rw [List.find?_eq_some_iff_append] at hfirst
+  obtain ⟨hex, as, bs, hys, has⟩ := hfirst
+  have hr : r ∈ ((subtree nodes).drop 1).filter (candContains q true) := by rw [hys]; simp
+  rw [List.mem_filter] at hr
+  refine ⟨hex, hr.2, hr.1, ?_⟩
+  intro c hc hcc hce
+  have hmem : c ∈ ((subtree nodes).drop 1).filter (candContains q true) := List.mem_filter.mpr ⟨hc, hcc⟩
+  rw [hys] at hmem hp
+  rw [List.pairwise_append] at hp
+  rcases List.mem_append.mp hmem with h | h
+  · have := has c h
+    simp [hce] at this
+  · cases h with
+    | head => exact ⟨Nat.le_refl _, fun _ => rfl⟩
+    | tail _ h =>
+      have h2 := hp.2.1
+      rw [List.pairwise_cons] at h2
+      have := h2.1 c h
+      omega
+
+/-- the "first exact candidate" branch of `bruteContains … 'top'` -/
+theorem bruteContains_top_of_first (self : FNode) (tail : List FNode) (q : Loc) (r : FNode)
+    (hc : containsQ self q = true) (hne : exactQ self q = false)
+    (hfirst : (((subtree (self :: tail)).drop 1).filter (candContains q true)).find? (fun f => exactQ f q) = some r) :
+    bruteContains (self :: tail) q .top = some r := by
+  have h1 : (AllowExact.top != AllowExact.no) = true := by decide
+  simp only [bruteContains, hc, hne, if_true, Bool.false_and, Bool.false_eq_true, if_false, h1, beq_self_eq_true]
+  rw [hfirst]
+
+/-- under `wfList`: whatever `bruteContains … 'top'` returns through the "first exact candidate" branch is exact and the
+highest node of the subtree (below the start node) sharing the location -/
+theorem bruteContains_top_highest' (self : FNode) (tail : List FNode) (q : Loc) (r : FNode)
+    (hwf : wfList (self :: tail) = true) (hc : containsQ self q = true) (hne : exactQ self q = false)
+    (hfirst : (((subtree (self :: tail)).drop 1).filter (candContains q true)).find? (fun f => exactQ f q) = some r) :
+    bruteContains (self :: tail) q .top = some r ∧ exactQ r q = true ∧
+    ∀ c ∈ (subtree (self :: tail)).drop 1, candContains q true c = true → exactQ c q = true → r.depth ≤ c.depth :=
+  ⟨bruteContains_top_of_first self tail q r hc hne hfirst,
+   (bruteContains_top_highest _ q r hwf hfirst).1,
+   fun c h1 h2 h3 => ((bruteContains_top_highest _ q r hwf hfirst).2.2.2 c h1 h2 h3).1⟩
+
+
+/-! ## the decorator search is inert on plainly well-formed lists -/
+
+theorem findContains_none_of_not_contains (g : FNode) (rest : List FNode) (q : Loc) (ae : AllowExact)
+    (h : containsQ g q = false) : findContains (g :: rest) q ae = none := by
+  simp [findContains, h]
+
+/-- no decorator root that contains the location: the decorator search finds nothing -/
+theorem decoGo_none (decos : List Nat) (q : Loc) (ae : AllowExact) (d : Nat) (l : List FNode)
+    (h : ∀ g ∈ l, containsQ g q = false) : decoGo decos q ae d l = none := by
+  induction l with
+  | nil => rfl
+  | cons g rest ih =>
+    unfold decoGo
+    have h1 := ih (fun x hx => h x (List.mem_cons_of_mem _ hx))
+    rw [findContains_none_of_not_contains g rest q ae (h g List.mem_cons_self), h1]
+    simp
+
+/-- everything after an entry that does not end before `q` and does not contain `q` does not contain `q` -/
+theorem no_contains_after (q : Loc) (f : FNode) (rest : List FNode) (hf : wfAt f rest = true)
+    (heb : endsBeforeQ f q = false) (h : notContainsQ f q = true) :
+    ∀ g ∈ rest, containsQ g q = false := by
+  intro g hg
+  cases mem_take_or_drop (deeper f.depth) rest g hg with
+  | inl hg =>
+    have h1 := wfAt_in f rest hf g hg
+    rw [← Bool.not_eq_true]
+    intro hc
+    geo
+  | inr hg =>
+    have h1 := wfAt_after f rest hf g hg
+    rw [← Bool.not_eq_true]
+    intro hc
+    geo
+
+theorem containsGoD_eq_of_wf (decos : List Nat) (q : Loc) (ae : AllowExact) (rest : List FNode)
+    (hwf : wfList rest = true) (cur : FNode) (ctail : List FNode) :
+    containsGoD decos q ae cur ctail rest = containsGo q ae cur ctail rest := by
+  induction rest generalizing cur ctail with
+  | nil => simp [containsGo, containsGoD]
+  | cons f rest ih =>
+    rw [wfList_cons] at hwf
+    obtain ⟨hf, hrest⟩ := hwf
+    unfold containsGo containsGoD
+    by_cases hd : f.depth ≤ cur.depth
+    · simp [hd]
+    · simp only [hd, if_false]
+      cases heb : endsBeforeQ f q
+      · simp only [Bool.false_eq_true, if_false]
+        cases hnc : notContainsQ f q
+        · simp only [Bool.false_eq_true, if_false]
+          rw [ih hrest f rest]
+        · simp only [if_true]
+          rw [decoGo_none decos q ae f.depth rest (no_contains_after q f rest hf heb hnc)]
+      · simp only [if_true]
+        exact ih hrest cur ctail
+
+/-- on a plainly well-formed list (no decorated definitions) the decorator search of `find_contains_loc` is inert -/
+theorem findContainsD_eq_of_wf (decos : List Nat) (nodes : List FNode) (q : Loc) (ae : AllowExact)
+    (hwf : wfList nodes = true) : findContainsD decos nodes q ae = findContains nodes q ae := by
+  cases nodes with
+  | nil => rfl
+  | cons self tail =>
+    rw [wfList_cons] at hwf
+    simp only [findContainsD, findContains]
+    rw [containsGoD_eq_of_wf decos q ae tail hwf.2]
+
+theorem findContainsD_bruteforce_wf (decos : List Nat) (nodes : List FNode) (q : Loc) (ae : AllowExact)
+    (hwf : wfList nodes = true) : (findContainsD decos nodes q ae).map (·.1) = bruteContains nodes q ae := by
+  rw [findContainsD_eq_of_wf decos nodes q ae hwf, findContains_bruteforce nodes q ae hwf]
+
+theorem findContainsD_bruteforceT_wf (decos : List Nat) (nodes : List FNode) (q : Loc) (ae : AllowExact)
+    (hwf : wfList nodes = true) : findContainsD decos nodes q ae = bruteContainsT nodes q ae := by
+  rw [findContainsD_eq_of_wf decos nodes q ae hwf, findContains_bruteforceT nodes q ae hwf]
+
+
 /-! ## `find_loc` -/
 
 theorem lastCandT_suffix (p : FNode → Bool) (d : Nat) (l : List FNode) (f : FNode) (ft : List FNode)
@@ -467,6 +797,35 @@ theorem lastCandT_suffix (p : FNode → Bool) (d : Nat) (l : List FNode) (f : FN
           exact List.suffix_refl _
         · cases h
 
+theorem pickT_suffix (p e : FNode → Bool) (d : Nat) (l : List FNode) (f : FNode) (ft : List FNode)
+    (h : pickT p e d l = some (f, ft)) : f :: ft <:+ l := by
+  induction l with
+  | nil => simp [pickT] at h
+  | cons a rest ih =>
+    rw [pickT_cons] at h
+    split at h
+    · cases h
+    · split at h
+      · simp only [Option.some.injEq, Prod.mk.injEq] at h
+        obtain ⟨h1, h2⟩ := h
+        subst h1; subst h2
+        exact List.suffix_refl _
+      · cases hr : pickT p e d rest with
+        | some r =>
+          rw [hr] at h
+          simp only [Option.some.injEq] at h
+          subst h
+          exact List.IsSuffix.trans (ih hr) (List.suffix_cons _ _)
+        | none =>
+          rw [hr] at h
+          simp only at h
+          split at h
+          · simp only [Option.some.injEq, Prod.mk.injEq] at h
+            obtain ⟨h1, h2⟩ := h
+            subst h1; subst h2
+            exact List.suffix_refl _
+          · cases h
+
 theorem bruteContainsT_suffix (nodes : List FNode) (q : Loc) (ae : AllowExact) (f : FNode) (ft : List FNode)
     (h : bruteContainsT nodes q ae = some (f, ft)) : f :: ft <:+ nodes := by
   cases nodes with
@@ -481,12 +840,12 @@ theorem bruteContainsT_suffix (nodes : List FNode) (q : Loc) (ae : AllowExact) (
           obtain ⟨h1, h2⟩ := h
           subst h1; subst h2
           exact List.suffix_refl _
-        · cases hr : lastCandT (candContains q (ae != .no)) self.depth tail with
+        · cases hr : pickT (candContains q (ae != .no)) (topE q ae) self.depth tail with
           | some r =>
             rw [hr] at h
             simp only [Option.some.injEq] at h
             subst h
-            exact List.IsSuffix.trans (lastCandT_suffix _ _ _ _ _ hr) (List.suffix_cons _ _)
+            exact List.IsSuffix.trans (pickT_suffix _ _ _ _ _ _ hr) (List.suffix_cons _ _)
           | none =>
             rw [hr] at h
             simp only [Option.some.injEq, Prod.mk.injEq] at h
@@ -505,10 +864,10 @@ def bruteLoc (nodes : List FNode) (q : Loc) (exactTop : Bool) : Option FNode :=
       | some g => some g
       | none => some f
 
-theorem findLoc_bruteforce (nodes : List FNode) (q : Loc) (exactTop : Bool) (hwf : wfList nodes = true) :
-    findLoc nodes q exactTop = bruteLoc nodes q exactTop := by
+theorem findLoc_bruteforce (decos : List Nat) (nodes : List FNode) (q : Loc) (exactTop : Bool)
+    (hwf : wfList nodes = true) : findLoc decos nodes q exactTop = bruteLoc nodes q exactTop := by
   unfold findLoc bruteLoc
-  rw [findContains_bruteforceT nodes q _ hwf, findIn_bruteforce nodes q hwf]
+  rw [findContainsD_bruteforceT_wf decos nodes q _ hwf, findIn_bruteforce nodes q hwf]
   cases h : bruteContainsT nodes q (if exactTop then .top else .yes) with
   | none => rfl
   | some r =>
@@ -518,6 +877,520 @@ theorem findLoc_bruteforce (nodes : List FNode) (q : Loc) (exactTop : Bool) (hwf
     rw [findIn_bruteforce (f :: ft) q hwf']
     rfl
 
+
+/-! ## lists with decorated definitions: `wfListD` -/
+
+theorem decoPrefix_nil_of_all (decos : List Nat) (d : Nat) (l : List FNode)
+    (h : ∀ x ∈ l, decos.contains x.id = false) : decoPrefix decos d false l = [] := by
+  cases l with
+  | nil => rfl
+  | cons g rest =>
+    have := h g List.mem_cons_self
+    unfold decoPrefix
+    rw [this]
+    simp
+
+theorem decoPrefix_takeWhile (decos : List Nat) (d : Nat) (b : Bool) (l : List FNode) :
+    decoPrefix decos d b (l.takeWhile (deeper d)) = decoPrefix decos d b l := by
+  induction l generalizing b with
+  | nil => rfl
+  | cons g rest ih =>
+    by_cases hd : g.depth ≤ d
+    · have : ¬ g.depth > d := by omega
+      simp [List.takeWhile_cons, this, decoPrefix, hd]
+    · have hd' : g.depth > d := by omega
+      simp only [List.takeWhile_cons, deeper_apply, hd', decide_true, if_true]
+      unfold decoPrefix
+      simp only [hd, if_false, ih]
+
+theorem decoPrefix_true_split (decos : List Nat) (d : Nat) (l : List FNode) :
+    decoPrefix decos d true l
+      = l.takeWhile (deeper (d + 1)) ++ decoPrefix decos d false (l.dropWhile (deeper (d + 1))) := by
+  induction l with
+  | nil => rfl
+  | cons g rest ih =>
+    by_cases hd : g.depth > d + 1
+    · have h1 : ¬ g.depth ≤ d := by omega
+      have h2 : (g.depth == d + 1) = false := by simp; omega
+      simp only [List.takeWhile_cons, List.dropWhile_cons, deeper_apply, hd, decide_true, if_true, List.cons_append]
+      rw [← ih]
+      conv => lhs; unfold decoPrefix
+      simp [h1, h2]
+    · simp only [List.takeWhile_cons, List.dropWhile_cons, deeper_apply, hd, decide_false, Bool.false_eq_true,
+        if_false, List.nil_append]
+      unfold decoPrefix
+      by_cases h1 : g.depth ≤ d
+      · simp [h1]
+      · have h2 : (g.depth == d + 1) = true := by simp; omega
+        simp [h1, h2]
+
+theorem decoPrefix_prefix (decos : List Nat) (d : Nat) (b : Bool) (l : List FNode) :
+    decoPrefix decos d b l <+: l := by
+  induction l generalizing b with
+  | nil => exact List.prefix_refl _
+  | cons g rest ih =>
+    unfold decoPrefix
+    split
+    · exact List.nil_prefix
+    · split
+      · split
+        · exact (List.cons_prefix_cons).mpr ⟨rfl, ih true⟩
+        · exact List.nil_prefix
+      · split
+        · exact (List.cons_prefix_cons).mpr ⟨rfl, ih b⟩
+        · exact List.nil_prefix
+
+theorem wfListD_cons (decos : List Nat) (f : FNode) (rest : List FNode) :
+    wfListD decos (f :: rest) = true ↔ wfAtD decos f rest = true ∧ wfListD decos rest = true := by
+  simp [wfListD]
+
+theorem wfListD_suffix (decos : List Nat) (l l' : List FNode) (hs : l' <:+ l) (h : wfListD decos l = true) :
+    wfListD decos l' = true := by
+  induction l with
+  | nil => simp at hs; subst hs; exact h
+  | cons a l ih =>
+    rw [List.suffix_cons_iff] at hs
+    cases hs with
+    | inl e => subst e; exact h
+    | inr hs => rw [wfListD_cons] at h; exact ih hs h.2
+
+/-- `wfAtD` spelled out (the decorator part computed on the whole following list) -/
+theorem wfAtD_iff (decos : List Nat) (f : FNode) (rest : List FNode) :
+    wfAtD decos f rest = true ↔
+      posLe f.start f.stop = true
+      ∧ (∀ g ∈ decoPrefix decos f.depth false rest,
+          posLe g.stop f.start = true ∧ (g.depth = f.depth + 1 ∨ decos.contains g.id = false))
+      ∧ (∀ g ∈ (rest.takeWhile (deeper f.depth)).drop (decoPrefix decos f.depth false rest).length,
+          posLe f.start g.start = true ∧ posLe g.stop f.stop = true)
+      ∧ (∀ g ∈ rest.dropWhile (deeper f.depth), posLe f.stop g.start = true) := by
+  have e : decoPrefix decos f.depth false (List.takeWhile (fun g => decide (g.depth > f.depth)) rest)
+      = decoPrefix decos f.depth false rest := decoPrefix_takeWhile decos f.depth false rest
+  simp only [wfAtD, e, Bool.and_eq_true, List.all_eq_true, Bool.or_eq_true, beq_iff_eq, Bool.not_eq_true',
+    deeper]
+  constructor
+  · rintro ⟨⟨⟨h1, h2⟩, h3⟩, h4⟩
+    exact ⟨h1, h2, h3, h4⟩
+  · rintro ⟨h1, h2, h3, h4⟩
+    exact ⟨⟨⟨h1, h2⟩, h3⟩, h4⟩
+
+theorem wfAtD_after (decos : List Nat) (f : FNode) (rest : List FNode) (h : wfAtD decos f rest = true) (g : FNode)
+    (hg : g ∈ rest.dropWhile (deeper f.depth)) : posLe f.stop g.start = true :=
+  ((wfAtD_iff decos f rest).mp h).2.2.2 g hg
+
+/-- without a leading decorator `wfAtD` is `wfAt` -/
+theorem wfAt_of_wfAtD (decos : List Nat) (f : FNode) (rest : List FNode) (h : wfAtD decos f rest = true)
+    (hdp : decoPrefix decos f.depth false rest = []) : wfAt f rest = true := by
+  rw [wfAtD_iff, hdp] at h
+  simp only [List.length_nil, List.drop_zero] at h
+  simp only [wfAt, Bool.and_eq_true, List.all_eq_true]
+  exact ⟨⟨h.1, h.2.2.1⟩, h.2.2.2⟩
+
+/-- the entries following `f` are its decorator part, the rest of its subtree, or behind its subtree -/
+theorem wfAtD_mem_cases (decos : List Nat) (f : FNode) (rest : List FNode) (g : FNode) (hg : g ∈ rest) :
+    g ∈ decoPrefix decos f.depth false rest
+    ∨ g ∈ (rest.takeWhile (deeper f.depth)).drop (decoPrefix decos f.depth false rest).length
+    ∨ g ∈ rest.dropWhile (deeper f.depth) := by
+  cases mem_take_or_drop (deeper f.depth) rest g hg with
+  | inr h => exact Or.inr (Or.inr h)
+  | inl h =>
+    have hp := decoPrefix_prefix decos f.depth false (rest.takeWhile (deeper f.depth))
+    rw [decoPrefix_takeWhile] at hp
+    obtain ⟨t, ht⟩ := hp
+    have : (rest.takeWhile (deeper f.depth)).drop (decoPrefix decos f.depth false rest).length = t := by
+      rw [← ht]; simp
+    rw [this]
+    rw [← ht] at h
+    rcases List.mem_append.mp h with h | h
+    · exact Or.inl h
+    · exact Or.inr (Or.inl h)
+
+/-- below a node whose subtree has no decorator roots `wfListD` gives the plain `wfAt` facts -/
+theorem wfSub_of_wfListD (decos : List Nat) (d : Nat) (l : List FNode) (h : wfListD decos l = true)
+    (hno : ∀ x ∈ l.takeWhile (deeper d), decos.contains x.id = false) : wfSub d l = true := by
+  induction l with
+  | nil => rfl
+  | cons f rest ih =>
+    by_cases hd : f.depth ≤ d
+    · simp [wfSub, hd]
+    · have hd' : f.depth > d := by omega
+      rw [wfListD_cons] at h
+      rw [wfSub_cons _ _ _ hd]
+      have e : List.takeWhile (deeper d) (f :: rest) = f :: List.takeWhile (deeper d) rest := by
+        simp [List.takeWhile_cons, hd']
+      rw [e] at hno
+      have hno' : ∀ x ∈ List.takeWhile (deeper d) rest, decos.contains x.id = false :=
+        fun x hx => hno x (List.mem_cons_of_mem _ hx)
+      refine ⟨wfAt_of_wfAtD decos f rest h.1 ?_, ih h.2 hno'⟩
+      rw [← decoPrefix_takeWhile]
+      apply decoPrefix_nil_of_all
+      intro x hx
+      apply hno'
+      rw [takeWhile_split d f.depth (by omega) rest]
+      exact List.mem_append_left _ hx
+
+/-- entries deeper than `d + 1` are skipped by the decorator search -/
+theorem decoGo_skip (decos : List Nat) (q : Loc) (ae : AllowExact) (d : Nat) (l : List FNode) :
+    decoGo decos q ae d l = decoGo decos q ae d (l.dropWhile (deeper (d + 1))) := by
+  induction l with
+  | nil => rfl
+  | cons g rest ih =>
+    by_cases hd : g.depth > d + 1
+    · have h1 : ¬ g.depth ≤ d := by omega
+      have h2 : (g.depth == d + 1) = false := by simp; omega
+      simp only [List.dropWhile_cons, deeper_apply, hd, decide_true, if_true]
+      rw [← ih]
+      conv => lhs; unfold decoGo
+      simp [h1, h2]
+    · simp [List.dropWhile_cons, hd]
+
+theorem cand_false_of_not_contains (q : Loc) (ax : Bool) (g : FNode) (h : containsQ g q = false) :
+    candContains q ax g = false := by
+  have : notContainsQ g q = true := by rw [notContainsQ_eq, h]; rfl
+  simp [candContains, this]
+
+/-- a node that contains a NON-EMPTY rectangle does not end at or before its start: for such rectangles the entry test
+of `find_contains_loc` and the loop's candidate test agree -/
+theorem not_endsBefore_of_contains (q : Loc) (hq : q.ln < q.endLn ∨ (q.ln = q.endLn ∧ q.col < q.endCol)) (g : FNode)
+    (h : containsQ g q = true) : endsBeforeQ g q = false := by
+  rw [← Bool.not_eq_true]
+  intro hc
+  geo
+
+theorem cand_of_contains (q : Loc) (ae : AllowExact) (g : FNode) (hc : containsQ g q = true)
+    (heb : endsBeforeQ g q = false) (hA : ¬ (exactQ g q && ae == .no) = true) :
+    candContains q (ae != .no) g = true := by
+  have hnc : notContainsQ g q = false := by rw [notContainsQ_eq, hc]; rfl
+  simp only [candContains, heb, hnc, Bool.not_false, Bool.true_and]
+  cases ae <;> cases hex : exactQ g q <;> simp_all
+
+/-- everything after (the subtree of) a node that contains the non-empty rectangle `q` is neither a container nor a
+candidate -/
+theorem after_contains (q : Loc) (hq : q.ln < q.endLn ∨ (q.ln = q.endLn ∧ q.col < q.endCol)) (g x : FNode)
+    (hc : containsQ g q = true) (hx : posLe g.stop x.start = true) : containsQ x q = false := by
+  rw [← Bool.not_eq_true]
+  intro hc'
+  geo
+
+/-- THE DECORATOR SEARCH at a definition of depth `d` that does not contain `q`: on a list that consists of decorator
+subtrees (without inner decorator roots), followed by entries none of which contains `q`, the search returns the
+`pickT` selection over the list. -/
+theorem decoGo_eq (decos : List Nat) (q : Loc) (ae : AllowExact)
+    (hq : q.ln < q.endLn ∨ (q.ln = q.endLn ∧ q.col < q.endCol)) (d D : Nat) (hD : D ≤ d) :
+    ∀ (n : Nat) (l : List FNode), l.length ≤ n → wfListD decos l = true →
+      (∀ x ∈ decoPrefix decos d false l, x.depth = d + 1 ∨ decos.contains x.id = false) →
+      (∀ x ∈ l.drop (decoPrefix decos d false l).length, containsQ x q = false) →
+      decoGo decos q ae d l = pickT (candContains q (ae != .no)) (topE q ae) D l := by
+  intro n
+  induction n with
+  | zero =>
+    intro l hl _ _ _
+    have : l = [] := List.eq_nil_of_length_eq_zero (by omega)
+    subst this
+    rfl
+  | succ n ih =>
+    intro l hl hwf h2 h3
+    cases l with
+    | nil => rfl
+    | cons g rest =>
+      -- everything is a non-container when the list does not start with a decorator root
+      have hnone : decoPrefix decos d false (g :: rest) = [] →
+          decoGo decos q ae d (g :: rest) = pickT (candContains q (ae != .no)) (topE q ae) D (g :: rest) := by
+        intro he
+        rw [he] at h3
+        simp only [List.length_nil, List.drop_zero] at h3
+        rw [decoGo_none decos q ae d _ h3,
+          pickT_none_of_all _ _ _ _ (fun x hx => cand_false_of_not_contains q _ x (h3 x hx))]
+      by_cases hgd : g.depth ≤ d
+      · exact hnone (by simp [decoPrefix, hgd])
+      · by_cases hroot : (g.depth == d + 1 && decos.contains g.id) = true
+        · have hroot' := hroot
+          simp only [Bool.and_eq_true, beq_iff_eq] at hroot
+          obtain ⟨hg1, hg2⟩ := hroot
+          have hgD : ¬ g.depth ≤ D := by omega
+          rw [wfListD_cons] at hwf
+          obtain ⟨hwg, hwrest⟩ := hwf
+          -- the decorator part of the list: `g`, its subtree, the following decorators
+          have hdp : decoPrefix decos d false (g :: rest)
+              = g :: (rest.takeWhile (deeper (d + 1))
+                  ++ decoPrefix decos d false (rest.dropWhile (deeper (d + 1)))) := by
+            rw [← decoPrefix_true_split]
+            conv => lhs; unfold decoPrefix
+            have hb : (g.depth == d + 1) = true := by simp [hg1]
+            simp only [hgd, if_false, hb, if_true, hg2]
+          have hnoroot : ∀ x ∈ rest.takeWhile (deeper g.depth), decos.contains x.id = false := by
+            intro x hx
+            rw [hg1] at hx
+            have hx1 := mem_takeWhile_p _ _ _ hx
+            simp only [deeper_apply, decide_eq_true_eq] at hx1
+            have := h2 x (by rw [hdp]; exact List.mem_cons_of_mem _ (List.mem_append_left _ hx))
+            rcases this with h | h
+            · omega
+            · exact h
+          have hwfAt : wfAt g rest = true := by
+            apply wfAt_of_wfAtD decos g rest hwg
+            rw [← decoPrefix_takeWhile]
+            exact decoPrefix_nil_of_all _ _ _ hnoroot
+          have hsub : wfSub g.depth rest = true := wfSub_of_wfListD decos g.depth rest hwrest hnoroot
+          have hfc := findContains_bruteforceT_sub g rest q ae hsub
+          cases hcg : containsQ g q
+          · -- `g` does not contain `q`: nothing in its subtree does, go on behind its subtree
+            conv => lhs; unfold decoGo
+            simp only [hgd, if_false, hroot', if_true]
+            rw [findContains_none_of_not_contains g rest q ae hcg]
+            simp only
+            have hpg : candContains q (ae != .no) g = false := cand_false_of_not_contains q _ g hcg
+            have hpsub : ∀ x ∈ rest.takeWhile (deeper (d + 1)), candContains q (ae != .no) x = false := by
+              intro x hx
+              rw [← hg1] at hx
+              have h1 := wfAt_in g rest hwfAt x hx
+              apply cand_false_of_not_contains
+              rw [← Bool.not_eq_true]
+              intro hc
+              geo
+            rw [decoGo_skip, pickT_cons]
+            simp only [hgD, if_false, hpg, Bool.false_and, Bool.false_eq_true]
+            rw [pickT_skip _ _ D (d + 1) (by omega) rest hpsub]
+            have hlen : (rest.dropWhile (deeper (d + 1))).length ≤ n := by
+              have := (List.dropWhile_sublist (deeper (d + 1)) (l := rest)).length_le
+              simp only [List.length_cons] at hl
+              omega
+            rw [ih (rest.dropWhile (deeper (d + 1))) hlen
+              (wfListD_suffix decos rest _ (List.dropWhile_suffix _) hwrest)
+              (fun x hx => h2 x (by
+                rw [hdp]; exact List.mem_cons_of_mem _ (List.mem_append_right _ hx)))
+              (fun x hx => h3 x (by
+                rw [hdp]
+                have e : g :: rest = g :: (rest.takeWhile (deeper (d + 1)) ++ rest.dropWhile (deeper (d + 1))) := by
+                  rw [List.takeWhile_append_dropWhile]
+                rw [e]
+                simp only [List.length_cons, List.length_append, List.drop_succ_cons]
+                rw [List.drop_length_add_append]
+                exact hx))]
+            cases pickT (candContains q (ae != .no)) (topE q ae) D (rest.dropWhile (deeper (d + 1))) <;> rfl
+          · -- `g` contains `q`: the recursive call decides; nothing behind the subtree of `g` matters
+            have heb := not_endsBefore_of_contains q hq g hcg
+            have hafter : ∀ x ∈ rest.dropWhile (deeper g.depth), containsQ x q = false :=
+              fun x hx => after_contains q hq g x hcg (wfAt_after g rest hwfAt x hx)
+            have hpafter : ∀ x ∈ rest.dropWhile (deeper g.depth), candContains q (ae != .no) x = false :=
+              fun x hx => cand_false_of_not_contains q _ x (hafter x hx)
+            simp only [bruteContainsT, hcg, if_true] at hfc
+            conv => lhs; unfold decoGo
+            simp only [hgd, if_false, hroot', if_true]
+            rw [pickT_cons]
+            simp only [hgD, if_false]
+            by_cases hA : (exactQ g q && ae == .no) = true
+            · -- exact match, not allowed: `None` from the recursive call and no candidates at all
+              simp only [hA, if_true] at hfc
+              rw [hfc]
+              simp only
+              rw [decoGo_skip, decoGo_none decos q ae d _ (by rw [← hg1]; exact hafter)]
+              simp only [Bool.and_eq_true, beq_iff_eq] at hA
+              obtain ⟨hex, hae⟩ := hA
+              subst hae
+              have hb : (AllowExact.no != AllowExact.no) = false := by decide
+              simp only [hb] at *
+              have hpg : candContains q false g = false := by simp [candContains, hex]
+              have hall := no_cand_after q false g rest hwfAt heb (Or.inr ⟨rfl, hex⟩)
+              simp [hpg, pickT_none_of_all _ _ _ _ hall]
+            · have hpg : candContains q (ae != .no) g = true := cand_of_contains q ae g hcg heb hA
+              simp only [hA, if_false] at hfc
+              by_cases hB : (exactQ g q && ae == .top) = true
+              · simp only [hB, if_true] at hfc
+                rw [hfc]
+                have he : topE q ae g = true := hB
+                simp [hpg, he]
+              · simp only [hB, if_false] at hfc
+                rw [hfc]
+                have he : topE q ae g = false := by simpa [topE] using hB
+                simp only [hpg, he, Bool.and_false, Bool.false_eq_true, if_false, if_true]
+                rw [pickT_depth _ _ D g.depth (by omega) rest hpafter]
+                cases pickT (candContains q (ae != .no)) (topE q ae) g.depth rest <;> rfl
+        · apply hnone
+          unfold decoPrefix
+          simp only [hgd, if_false]
+          by_cases h1 : (g.depth == d + 1) = true
+          · simp only [h1, Bool.true_and, Bool.not_eq_true] at hroot
+            simp only [h1, if_true, hroot, Bool.false_eq_true, if_false]
+          · simp [h1]
+
+
+theorem no_cand_after_subtreeD (decos : List Nat) (q : Loc) (ax : Bool) (f : FNode) (rest : List FNode)
+    (hf : wfAtD decos f rest = true) (heb : endsBeforeQ f q = false) :
+    ∀ g ∈ rest.dropWhile (deeper f.depth), candContains q ax g = false := by
+  intro g hg
+  have h1 := wfAtD_after decos f rest hf g hg
+  geo
+
+/-- after an exact match (decorated or not) nothing is a candidate when exact matches are not allowed: its decorators
+end at or before its start, the rest of its subtree is inside it, everything else starts at or after its end -/
+theorem no_cand_after_exactD (decos : List Nat) (q : Loc) (f : FNode) (rest : List FNode)
+    (hf : wfAtD decos f rest = true) (heb : endsBeforeQ f q = false) (hex : exactQ f q = true) :
+    ∀ g ∈ rest, candContains q false g = false := by
+  intro g hg
+  have hw := (wfAtD_iff decos f rest).mp hf
+  rcases wfAtD_mem_cases decos f rest g hg with h | h | h
+  · have h1 := (hw.2.1 g h).1
+    clear hw hf hg h
+    geo
+  · have h1 := hw.2.2.1 g h
+    clear hw hf hg h
+    geo
+  · have h1 := hw.2.2.2 g h
+    clear hw hf hg h
+    geo
+
+/-- behind the decorator part of a definition that does not contain `q` (and does not end before it) nothing
+contains `q` -/
+theorem no_contains_afterD (decos : List Nat) (q : Loc) (f : FNode) (rest : List FNode)
+    (hf : wfAtD decos f rest = true) (heb : endsBeforeQ f q = false) (hnc : notContainsQ f q = true) :
+    ∀ x ∈ rest.drop (decoPrefix decos f.depth false rest).length, containsQ x q = false := by
+  intro x hx
+  have hw := (wfAtD_iff decos f rest).mp hf
+  have hp := decoPrefix_prefix decos f.depth false (rest.takeWhile (deeper f.depth))
+  rw [decoPrefix_takeWhile] at hp
+  have hle := hp.length_le
+  have h23 := hw.2.2
+  clear hw hp hf
+  generalize (decoPrefix decos f.depth false rest).length = n at *
+  have e : rest.drop n = (rest.takeWhile (deeper f.depth)).drop n ++ rest.dropWhile (deeper f.depth) := by
+    conv => lhs; rw [← List.takeWhile_append_dropWhile (p := deeper f.depth) (l := rest)]
+    exact List.drop_append_of_le_length hle
+  rw [e] at hx
+  rw [← Bool.not_eq_true]
+  intro hc
+  rcases List.mem_append.mp hx with h | h
+  · have h1 := h23.1 x h
+    clear h23 hx h e
+    geo
+  · have h1 := h23.2 x h
+    clear h23 hx h e
+    geo
+
+/-- the repaired loop (with the decorator search) returns the `pickT` selection on lists with decorated definitions,
+for non-empty rectangles -/
+theorem containsGoD_eq (decos : List Nat) (q : Loc) (ae : AllowExact)
+    (hq : q.ln < q.endLn ∨ (q.ln = q.endLn ∧ q.col < q.endCol)) (rest : List FNode)
+    (hwf : wfListD decos rest = true) (cur : FNode) (ctail : List FNode) :
+    containsGoD decos q ae cur ctail rest
+      = (pickT (candContains q (ae != .no)) (topE q ae) cur.depth rest).getD (cur, ctail) := by
+  induction rest generalizing cur ctail with
+  | nil => simp [containsGoD, pickT]
+  | cons f rest ih =>
+    rw [wfListD_cons] at hwf
+    obtain ⟨hf, hrest⟩ := hwf
+    unfold containsGoD
+    by_cases hd : f.depth ≤ cur.depth
+    · simp [hd, pickT]
+    · simp only [hd, if_false]
+      cases heb : endsBeforeQ f q
+      · simp only [Bool.false_eq_true, if_false]
+        cases hnc : notContainsQ f q
+        · simp only [Bool.false_eq_true, if_false]
+          -- the descent step
+          have hdesc : candContains q (ae != .no) f = true → topE q ae f = false →
+              containsGoD decos q ae f rest rest
+                = (pickT (candContains q (ae != .no)) (topE q ae) cur.depth (f :: rest)).getD (cur, ctail) := by
+            intro hc he
+            rw [ih hrest f rest, pickT_cons]
+            simp only [hd, if_false, hc, he, Bool.and_false, Bool.false_eq_true, if_true]
+            rw [pickT_depth _ _ cur.depth f.depth (by omega) rest (no_cand_after_subtreeD decos q _ f rest hf heb)]
+            cases pickT (candContains q (ae != .no)) (topE q ae) f.depth rest <;> rfl
+          cases hex : exactQ f q
+          · simp only [Bool.false_and, Bool.false_eq_true, if_false]
+            exact hdesc (by simp [candContains, heb, hnc, hex]) (by simp [topE, hex])
+          · cases ae
+            · -- `allow_exact=False`: stop at the parent
+              simp only [Bool.true_and, beq_self_eq_true, if_true]
+              have hb : (AllowExact.no != AllowExact.no) = false := by decide
+              have hc : candContains q false f = false := by simp [candContains, hex]
+              have hall := no_cand_after_exactD decos q f rest hf heb hex
+              rw [pickT_cons]
+              simp only [hb]
+              simp [hd, hc, pickT_none_of_all _ _ _ _ hall]
+            · -- `allow_exact=True`: descend
+              have h1 : (AllowExact.yes == AllowExact.no) = false := by decide
+              have h2 : (AllowExact.yes == AllowExact.top) = false := by decide
+              simp only [Bool.true_and, h1, h2, Bool.false_eq_true, if_false]
+              exact hdesc (by simp [candContains, heb, hnc, h1]) (by simp [topE, h2])
+            · -- `allow_exact='top'`: stop at the match
+              have h1 : (AllowExact.top == AllowExact.no) = false := by decide
+              simp only [Bool.true_and, h1, Bool.false_eq_true, if_false, beq_self_eq_true, if_true]
+              have hc : candContains q (AllowExact.top != AllowExact.no) f = true := by
+                simp [candContains, heb, hnc, h1]
+              have he : topE q .top f = true := by simp [topE, hex]
+              rw [pickT_cons]
+              simp [hd, hc, he]
+        · -- `f` does not contain `q`: its decorators are searched
+          simp only [if_true]
+          have hc : candContains q (ae != .no) f = false := by simp [candContains, hnc]
+          have hw := (wfAtD_iff decos f rest).mp hf
+          rw [decoGo_eq decos q ae hq f.depth cur.depth (by omega) rest.length rest (Nat.le_refl _) hrest
+            (fun x hx => (hw.2.1 x hx).2) (no_contains_afterD decos q f rest hf heb hnc), pickT_cons]
+          simp only [hd, if_false, hc, Bool.false_and, Bool.false_eq_true]
+          cases pickT (candContains q (ae != .no)) (topE q ae) cur.depth rest <;> rfl
+      · simp only [if_true]
+        have hc : candContains q (ae != .no) f = false := by simp [candContains, heb]
+        rw [ih hrest cur ctail, pickT_cons]
+        simp only [hd, if_false, hc, Bool.false_and, Bool.false_eq_true]
+        cases pickT (candContains q (ae != .no)) (topE q ae) cur.depth rest <;> rfl
+
+/-- THE REPAIRED `find_contains_loc` on real walk lists WITH decorated definitions returns the brute-force selection
+over all nodes of the subtree (non-empty rectangles), with the list that follows it -/
+theorem findContainsD_bruteforceT (decos : List Nat) (nodes : List FNode) (q : Loc) (ae : AllowExact)
+    (hwf : wfListD decos nodes = true) (hq : q.ln < q.endLn ∨ (q.ln = q.endLn ∧ q.col < q.endCol)) :
+    findContainsD decos nodes q ae = bruteContainsT nodes q ae := by
+  cases nodes with
+  | nil => rfl
+  | cons self tail =>
+    rw [wfListD_cons] at hwf
+    simp only [findContainsD, bruteContainsT]
+    split
+    · split
+      · rfl
+      · split
+        · rfl
+        · rw [containsGoD_eq decos q ae hq tail hwf.2]
+          cases pickT (candContains q (ae != .no)) (topE q ae) self.depth tail <;> rfl
+    · rfl
+
+theorem findContainsD_bruteforce (decos : List Nat) (nodes : List FNode) (q : Loc) (ae : AllowExact)
+    (hwf : wfListD decos nodes = true) (hq : q.ln < q.endLn ∨ (q.ln = q.endLn ∧ q.col < q.endCol)) :
+    (findContainsD decos nodes q ae).map (·.1) = bruteContains nodes q ae := by
+  rw [findContainsD_bruteforceT decos nodes q ae hwf hq, bruteContainsT_map_fst]
+
+/-- `find_loc` on lists with decorated definitions: the contains-part is the brute-force selection; the inside-part is
+still the pass `findIn` (there is no brute-force theorem for `find_in_loc` on decorated lists) -/
+theorem findLoc_decorated_partial (decos : List Nat) (nodes : List FNode) (q : Loc) (exactTop : Bool)
+    (hwf : wfListD decos nodes = true) (hq : q.ln < q.endLn ∨ (q.ln = q.endLn ∧ q.col < q.endCol)) :
+    findLoc decos nodes q exactTop =
+      match bruteContainsT nodes q (if exactTop then .top else .yes) with
+      | none => findIn nodes q
+      | some (f, ftail) =>
+        if f.col == q.col && f.endCol == q.endCol && f.ln == q.ln && f.endLn == q.endLn then some f
+        else match findIn (f :: ftail) q with
+          | some g => some g
+          | none => some f := by
+  unfold findLoc
+  rw [findContainsD_bruteforceT decos nodes q _ hwf hq]
+  cases bruteContainsT nodes q (if exactTop then .top else .yes) with
+  | none => rfl
+  | some r => obtain ⟨f, ft⟩ := r; rfl
+
+/-- a plainly well-formed list is well-formed in the decorated sense when it has no decorator roots at all -/
+theorem wfListD_nil_of_wfList (nodes : List FNode) (hwf : wfList nodes = true) : wfListD [] nodes = true := by
+  induction nodes with
+  | nil => rfl
+  | cons f rest ih =>
+    rw [wfList_cons] at hwf
+    rw [wfListD_cons]
+    refine ⟨?_, ih hwf.2⟩
+    have hdp : decoPrefix [] f.depth false rest = [] := decoPrefix_nil_of_all [] _ _ (fun _ _ => rfl)
+    rw [wfAtD_iff, hdp]
+    simp only [List.length_nil, List.drop_zero]
+    exact ⟨wfAt_self f rest hwf.1, (fun g hg => by cases hg), fun g hg => wfAt_in f rest hwf.1 g hg,
+      fun g hg => wfAt_after f rest hwf.1 g hg⟩
+
+
 /-! ## non-vacuity: the source `a + b` -/
 
 /-- `Module > Expr > BinOp > (Name a, Add, Name b)` for the source `a + b` -/
@@ -525,39 +1398,98 @@ def exNodes : List FNode :=
   [⟨0, 0, 0, 0, 5, 0⟩, ⟨1, 0, 0, 0, 5, 1⟩, ⟨2, 0, 0, 0, 5, 2⟩, ⟨3, 0, 0, 0, 1, 3⟩, ⟨4, 0, 2, 0, 3, 3⟩, ⟨5, 0, 4, 0, 5, 3⟩]
 
 example : wfList exNodes = true := by decide
+example : wfListD [] exNodes = true := by decide
 -- rectangle of `b`: lowest container / first contained / best fit is `Name b`
 example : (findContains exNodes ⟨0, 4, 0, 5⟩ .yes).map (·.1) = some ⟨5, 0, 4, 0, 5, 3⟩ := by decide
 example : (findContains exNodes ⟨0, 4, 0, 5⟩ .no).map (·.1) = some ⟨2, 0, 0, 0, 5, 2⟩ := by decide
+example : (findContains exNodes ⟨0, 4, 0, 5⟩ .top).map (·.1) = some ⟨5, 0, 4, 0, 5, 3⟩ := by decide
+example : (findContainsD [] exNodes ⟨0, 4, 0, 5⟩ .yes).map (·.1) = some ⟨5, 0, 4, 0, 5, 3⟩ := by decide
 example : findIn exNodes ⟨0, 4, 0, 5⟩ = some ⟨5, 0, 4, 0, 5, 3⟩ := by decide
-example : findLoc exNodes ⟨0, 4, 0, 5⟩ false = some ⟨5, 0, 4, 0, 5, 3⟩ := by decide
+example : findLoc [] exNodes ⟨0, 4, 0, 5⟩ false = some ⟨5, 0, 4, 0, 5, 3⟩ := by decide
 -- whole source: `exact_top` chooses Module, otherwise the lowest exact match BinOp; `allow_exact=False` gives None
-example : findLoc exNodes ⟨0, 0, 0, 5⟩ true = some ⟨0, 0, 0, 0, 5, 0⟩ := by decide
-example : findLoc exNodes ⟨0, 0, 0, 5⟩ false = some ⟨2, 0, 0, 0, 5, 2⟩ := by decide
+example : findLoc [] exNodes ⟨0, 0, 0, 5⟩ true = some ⟨0, 0, 0, 0, 5, 0⟩ := by decide
+example : findLoc [] exNodes ⟨0, 0, 0, 5⟩ false = some ⟨2, 0, 0, 0, 5, 2⟩ := by decide
 example : findContains exNodes ⟨0, 0, 0, 5⟩ .no = none := by decide
+-- `'top'` honoured INSIDE the descent: started at `Expr`'s parent with a rectangle that the Module does not match
+-- exactly (list = the subtree of a Module `0,0..1,0` for the source `a + b⏎`): the highest exact match is `Expr`
+example : (findContains (⟨9, 0, 0, 1, 0, 0⟩ :: exNodes.drop 1) ⟨0, 0, 0, 5⟩ .top).map (·.1)
+    = some ⟨1, 0, 0, 0, 5, 1⟩ := by decide
+example : bruteContains (⟨9, 0, 0, 1, 0, 0⟩ :: exNodes.drop 1) ⟨0, 0, 0, 5⟩ .top = some ⟨1, 0, 0, 0, 5, 1⟩ := by decide
+example : (findContains (⟨9, 0, 0, 1, 0, 0⟩ :: exNodes.drop 1) ⟨0, 0, 0, 5⟩ .yes).map (·.1)
+    = some ⟨2, 0, 0, 0, 5, 2⟩ := by decide
 -- `a +` (0,0..0,3): contained by BinOp, first node inside is `Name a`; find_loc prefers the contained one
 example : (findContains exNodes ⟨0, 0, 0, 3⟩ .yes).map (·.1) = some ⟨2, 0, 0, 0, 5, 2⟩ := by decide
 example : findIn exNodes ⟨0, 0, 0, 3⟩ = some ⟨3, 0, 0, 0, 1, 3⟩ := by decide
-example : findLoc exNodes ⟨0, 0, 0, 3⟩ false = some ⟨3, 0, 0, 0, 1, 3⟩ := by decide
+example : findLoc [] exNodes ⟨0, 0, 0, 3⟩ false = some ⟨3, 0, 0, 0, 1, 3⟩ := by decide
 -- rectangles which reach outside the tree: no container; the first node inside, if any
-example : findLoc exNodes ⟨0, 2, 1, 4⟩ false = some ⟨4, 0, 2, 0, 3, 3⟩ := by decide
-example : findLoc exNodes ⟨0, 6, 1, 4⟩ false = none := by decide
+example : findLoc [] exNodes ⟨0, 2, 1, 4⟩ false = some ⟨4, 0, 2, 0, 3, 3⟩ := by decide
+example : findLoc [] exNodes ⟨0, 6, 1, 4⟩ false = none := by decide
 -- the functions agree with the brute force on these
-example : findLoc exNodes ⟨0, 0, 0, 3⟩ false = bruteLoc exNodes ⟨0, 0, 0, 3⟩ false := by decide
+example : findLoc [] exNodes ⟨0, 0, 0, 3⟩ false = bruteLoc exNodes ⟨0, 0, 0, 3⟩ false := by decide
+example : findLoc [] exNodes ⟨0, 0, 0, 5⟩ true = bruteLoc exNodes ⟨0, 0, 0, 5⟩ true := by decide
 -- a list continuing after the subtree of its first node (start node `BinOp` followed by a sibling statement)
 example : (findContains (exNodes.drop 2 ++ [⟨6, 1, 0, 1, 1, 1⟩]) ⟨1, 0, 1, 1⟩ .yes) = none := by decide
 example : wfList (exNodes.drop 2 ++ [⟨6, 1, 0, 1, 1, 1⟩]) = true := by decide
 
-/-- `@deco⏎def f(): pass`: the `FunctionDef` span `1,0..1,13` starts after its decorator child `Name deco 0,1..0,5` -/
+/-! ## decorated definitions -/
+
+/-- `@deco⏎def f(): pass`: the `FunctionDef` span `1,0..1,13` starts after its decorator child `Name deco 0,1..0,5`;
+decorator root id 2 -/
 def exDeco : List FNode :=
   [⟨0, 0, 0, 1, 13, 0⟩, ⟨1, 1, 0, 1, 13, 1⟩, ⟨2, 0, 1, 0, 5, 2⟩, ⟨3, 1, 9, 1, 13, 2⟩]
 
-example : wfList exDeco = false := by decide
-
-/-- the well-formedness hypothesis is needed: on a decorated function `find_contains_loc` stops at the Module while a
-scan over all nodes finds the decorator `Name` -/
-theorem findContains_needs_wf :
-    (findContains exDeco ⟨0, 1, 0, 5⟩ .yes).map (·.1) = some ⟨0, 0, 0, 1, 13, 0⟩
+/-- a decorated definition is not `wfList` but `wfListD`; the repaired `find_contains_loc` / `find_loc` find the
+decorator `Name`, as the scan over all nodes does -/
+theorem findContains_decorated_witness :
+    wfList exDeco = false
+    ∧ wfListD [2] exDeco = true
+    ∧ (findContainsD [2] exDeco ⟨0, 1, 0, 5⟩ .yes).map (·.1) = some ⟨2, 0, 1, 0, 5, 2⟩
     ∧ bruteContains exDeco ⟨0, 1, 0, 5⟩ .yes = some ⟨2, 0, 1, 0, 5, 2⟩
-    ∧ (findContains exDeco ⟨0, 1, 0, 5⟩ .yes).map (·.1) ≠ bruteContains exDeco ⟨0, 1, 0, 5⟩ .yes := by decide
+    ∧ findLoc [2] exDeco ⟨0, 2, 0, 4⟩ false = some ⟨2, 0, 1, 0, 5, 2⟩ := by decide
+
+/-- the pass WITHOUT the decorator search (the function before the repair) stops at the Module -/
+example : (findContains exDeco ⟨0, 1, 0, 5⟩ .yes).map (·.1) = some ⟨0, 0, 0, 1, 13, 0⟩ := by decide
+example : (findContains exDeco ⟨0, 1, 0, 5⟩ .yes).map (·.1) ≠ bruteContains exDeco ⟨0, 1, 0, 5⟩ .yes := by decide
+
+/-- `@a.b⏎@c(d)⏎def f(): pass`: two decorators with subtrees (`Attribute a.b > Name a`, `Call c(d) > Name c, Name d`),
+decorator roots 2 and 4 -/
+def exDeco2 : List FNode :=
+  [⟨0, 0, 0, 2, 13, 0⟩, ⟨1, 2, 0, 2, 13, 1⟩, ⟨2, 0, 1, 0, 4, 2⟩, ⟨3, 0, 1, 0, 2, 3⟩,
+   ⟨4, 1, 1, 1, 5, 2⟩, ⟨5, 1, 1, 1, 2, 3⟩, ⟨6, 1, 3, 1, 4, 3⟩, ⟨7, 2, 9, 2, 13, 2⟩]
+
+example : wfList exDeco2 = false ∧ wfListD [2, 4] exDeco2 = true := by decide
+-- the second decorator's argument `d`, found through the decorator search; `allow_exact=False` gives the `Call`
+example : (findContainsD [2, 4] exDeco2 ⟨1, 3, 1, 4⟩ .yes).map (·.1) = some ⟨6, 1, 3, 1, 4, 3⟩ := by decide
+example : (findContainsD [2, 4] exDeco2 ⟨1, 3, 1, 4⟩ .no).map (·.1) = some ⟨4, 1, 1, 1, 5, 2⟩ := by decide
+example : (findContainsD [2, 4] exDeco2 ⟨0, 1, 0, 2⟩ .top).map (·.1) = some ⟨3, 0, 1, 0, 2, 3⟩ := by decide
+-- an exact match of a decorator root with `allow_exact=False`: the Module, on both sides
+example : (findContainsD [2, 4] exDeco2 ⟨0, 1, 0, 4⟩ .no).map (·.1) = some ⟨0, 0, 0, 2, 13, 0⟩
+    ∧ bruteContains exDeco2 ⟨0, 1, 0, 4⟩ .no = some ⟨0, 0, 0, 2, 13, 0⟩ := by decide
+-- the theorem applies (hypotheses are satisfiable on decorated lists)
+example : (findContainsD [2, 4] exDeco2 ⟨1, 3, 1, 4⟩ .yes).map (·.1) = bruteContains exDeco2 ⟨1, 3, 1, 4⟩ .yes :=
+  findContainsD_bruteforce [2, 4] exDeco2 _ _ (by decide) (by decide)
+
+/-- `var⏎`: `Module 0,0..1,0 > Expr 0,0..0,3 > Name 0,0..0,3` -/
+def exVar : List FNode := [⟨0, 0, 0, 1, 0, 0⟩, ⟨1, 0, 0, 0, 3, 1⟩, ⟨2, 0, 0, 0, 3, 2⟩]
+
+/-- `exact_top` / `allow_exact='top'` below a start node that is not itself the exact match: the highest (`Expr`) of
+the nodes sharing the location, without it the lowest (`Name`) -/
+theorem findLoc_exactTop_witness :
+    wfList exVar = true
+    ∧ findLoc [] exVar ⟨0, 0, 0, 3⟩ true = some ⟨1, 0, 0, 0, 3, 1⟩
+    ∧ findLoc [] exVar ⟨0, 0, 0, 3⟩ false = some ⟨2, 0, 0, 0, 3, 2⟩
+    ∧ (findContainsD [] exVar ⟨0, 0, 0, 3⟩ .top).map (·.1) = some ⟨1, 0, 0, 0, 3, 1⟩
+    ∧ bruteContains exVar ⟨0, 0, 0, 3⟩ .top = some ⟨1, 0, 0, 0, 3, 1⟩ := by decide
+
+/-- why `findContainsD_bruteforce` needs a non-empty rectangle: `@d⏎def f(): pass` (`Module`, `FunctionDef 1,0..1,13`,
+decorator `Name d 0,1..0,2`), empty rectangle at the END of the decorator: the entry test of the recursive call accepts
+the decorator, the ends-at-or-before test of the loop (= the brute-force candidate test) rejects it -/
+def exDecoEmpty : List FNode := [⟨0, 0, 0, 5, 0, 0⟩, ⟨1, 1, 0, 1, 13, 1⟩, ⟨2, 0, 1, 0, 2, 2⟩]
+
+example : wfListD [2] exDecoEmpty = true
+    ∧ (findContainsD [2] exDecoEmpty ⟨0, 2, 0, 2⟩ .yes).map (·.1) = some ⟨2, 0, 1, 0, 2, 2⟩
+    ∧ bruteContains exDecoEmpty ⟨0, 2, 0, 2⟩ .yes = some ⟨0, 0, 0, 5, 0, 0⟩
+    ∧ (findContainsD [2] exDecoEmpty ⟨0, 2, 0, 2⟩ .yes).map (·.1) ≠ bruteContains exDecoEmpty ⟨0, 2, 0, 2⟩ .yes := by
+  decide
 
 end Pfst.Scan
